@@ -24,7 +24,7 @@ class C20(Spec):
     prop = "C20"
     coq_targets = ["Props/C20.vo"]
     prop_module = "Props.C20"
-    theorems = ["C20_length", "C20_ident", "C20_boolean", "C20_boolean_nonzero", "C20_int", "C20_enum"]
+    theorems = ["C20_length", "C20_ident", "C20_ident_exact", "C20_ident_value_bound", "C20_boolean", "C20_boolean_nonzero", "C20_int", "C20_enum"]
     builds = [("default", "dev"), ("default", "release")]
     level_text = ("Round-trip theorems for all u64 lengths, all tags < 64 of the four classes, all values of the "
                   "eight integer kinds and all enumerated indices, proved in Coq about a hand-written model of "
